@@ -91,7 +91,7 @@ pub fn units(tier: Tier, seed: u64) -> Vec<Unit> {
         if matches!(i, VK::LnReturn | VK::Drawdown) && matches!(o, VK::LnReturn | VK::Drawdown | VK::Roc(_)) { continue; }
         u.push(unit!(format!("C08/chain/{} over {}/k=7", o.name(), i.name()), readiness(o.clone(), Some(i.clone()), 7usize, Warm::Unspecified)));
     }
-    for x in u.iter_mut() { x.panic_is_violation = true; x.path_cap = 6000; x.budget_s = if tier == Tier::Quick { 60.0 } else { 600.0 }; }
+    for x in u.iter_mut() { x.panic_is_violation = true; x.path_cap = 6000; x.branch_nl_timeout_ms = Some(1000); x.budget_s = if tier == Tier::Quick { 60.0 } else { 600.0 }; }
     u
 }
 pub fn meta() -> Meta {
